@@ -1,5 +1,111 @@
-"""NEON intrinsics (aarch64 build configurations) — lane-wise models, see lanes.py."""
+"""NEON intrinsics (aarch64 build configurations) — lane-wise models, see lanes.py.
+
+Only the dozen intrinsics httparse's NEON backend uses, plus close relatives a rewrite would
+plausibly reach for.  Each output lane is a function of the same input lane (and constants), so a
+256-entry table per lane is a complete evaluation."""
+from .absm import Unanalysable, mk_int, TABLES, FULL
+from . import lanes as L
+
+
+def vec16(v):
+    if v[0] != "simd" or len(v[1]) != 16:
+        raise Unanalysable("NEON operand is not a 16-lane byte vector (%s)" % v[0])
+    return v[1]
+
+
+def load16(m, st, ptr, what):
+    if ptr[0] != "ptr":
+        raise Unanalysable("%s through %s" % (what, ptr[0]))
+    loc = ptr[1]
+    if loc[0] == "B":
+        return L.simd_load(m, st, ptr, 16, what)
+    # a table in a local / constant array
+    u8 = None
+    for i, ty in enumerate(m.p.types):
+        if ty and ty["k"] == "int" and ty["size"] == 1 and not ty["signed"]:
+            u8 = i
+            break
+    lanes_ = []
+    for i in range(16):
+        v = m.read_loc(st, m.elem_loc(st, loc, mk_int(i, 64)), u8)
+        if v[0] not in ("int", "cell"):
+            raise Unanalysable("%s of non-byte data" % what)
+        lanes_.append(v)
+    return ("simd", tuple(lanes_))
+
+
+NEON2 = {
+    "vandq_u8": lambda x, y: x & y,
+    "vorrq_u8": lambda x, y: x | y,
+    "veorq_u8": lambda x, y: x ^ y,
+    "vbicq_u8": lambda x, y: x & (~y & 0xFF),
+    "vornq_u8": lambda x, y: x | (~y & 0xFF),
+    "vceqq_u8": lambda x, y: 0xFF if x == y else 0,
+    "vcleq_u8": lambda x, y: 0xFF if x <= y else 0,
+    "vcltq_u8": lambda x, y: 0xFF if x < y else 0,
+    "vcgeq_u8": lambda x, y: 0xFF if x >= y else 0,
+    "vcgtq_u8": lambda x, y: 0xFF if x > y else 0,
+    "vmaxq_u8": lambda x, y: max(x, y),
+    "vminq_u8": lambda x, y: min(x, y),
+    "vaddq_u8": lambda x, y: (x + y) & 0xFF,
+    "vsubq_u8": lambda x, y: (x - y) & 0xFF,
+    "vtstq_u8": lambda x, y: 0xFF if (x & y) else 0,
+}
+
+
+def const_arg(inst, idx=0):
+    cs = [a for a in inst["args"] if isinstance(a, dict) and a.get("val") is not None]
+    if len(cs) <= idx:
+        raise Unanalysable("const generic argument of %s not evaluated" % inst["name"])
+    return cs[idx]["val"]
+
+
+def neon_prim(name):
+    def f(m, st, inst, args, t):
+        if name == "vld1q_u8":
+            return load16(m, st, args[0], name)
+        if name == "vdupq_n_u8":
+            a = args[0]
+            if a[0] not in ("int", "cell"):
+                raise Unanalysable("vdupq_n_u8 of %s" % a[0])
+            return ("simd", tuple(a for _ in range(16)))
+        if name in NEON2:
+            a, b = vec16(args[0]), vec16(args[1])
+            return ("simd", tuple(L.lane_map2(m, st, NEON2[name], x, y) for x, y in zip(a, b)))
+        if name == "vmvnq_u8":
+            return ("simd", tuple(L.lane_map1(m, st, lambda x: (~x) & 0xFF, x) for x in vec16(args[0])))
+        if name in ("vshrq_n_u8", "vshlq_n_u8"):
+            n = const_arg(inst)
+            fn = (lambda x: x >> n) if name == "vshrq_n_u8" else (lambda x: (x << n) & 0xFF)
+            return ("simd", tuple(L.lane_map1(m, st, fn, x) for x in vec16(args[0])))
+        if name == "vqtbl1q_u8":
+            table, idx = vec16(args[0]), vec16(args[1])
+            if not all(x[0] == "int" for x in table):
+                raise Unanalysable("vqtbl1q_u8 with a data-dependent table")
+            tv = [x[1] & 0xFF for x in table]
+            return ("simd", tuple(L.lane_map1(m, st, lambda i: tv[i] if i < 16 else 0, x) for x in idx))
+        if name in ("vreinterpretq_u64_u8", "vreinterpretq_u8_u64", "vreinterpretq_u16_u8", "vreinterpretq_u32_u8"):
+            return args[0]
+        if name == "vgetq_lane_u64":
+            lane = const_arg(inst)
+            v = vec16(args[0])
+            return L.word_from_bytes(m, st, v[8 * lane: 8 * lane + 8], 64, False, "ne")
+        if name == "vgetq_lane_u8":
+            lane = const_arg(inst)
+            return vec16(args[0])[lane]
+        if name in ("vmaxvq_u8", "vminvq_u8"):
+            raise Unanalysable("horizontal NEON reduction %s" % name)
+        raise Unanalysable("NEON intrinsic %s" % name)
+    return f
+
+
+NAMES = ["vld1q_u8", "vdupq_n_u8", "vmvnq_u8", "vshrq_n_u8", "vshlq_n_u8", "vqtbl1q_u8", "vreinterpretq_u64_u8", "vreinterpretq_u8_u64",
+         "vgetq_lane_u64", "vgetq_lane_u8", "vmaxvq_u8", "vminvq_u8"] + list(NEON2)
 
 
 def install(m):
-    pass
+    for n in NAMES:
+        f = neon_prim(n)
+        for prefix in ("core::arch::aarch64::", "core::core_arch::aarch64::", "core::core_arch::arm_shared::neon::generated::",
+                       "core::core_arch::aarch64::neon::generated::", "core::core_arch::arm_shared::neon::"):
+            m.prims[prefix + n] = f
